@@ -514,7 +514,19 @@ def run(pid, drop=()):
     """TDS.run: gate on power flow; loop invariant on time / event index / step-size state; success <=> reached tf and
     not busted."""
     sch = run_schema()
-    ghost0 = {'fired': 0}
+    ghost0 = {'fired': 0, 'stored': False}
+
+    def store_h(ex, st, args, kw, node):
+        st.ghost['stored'] = True
+        return None
+
+    def streaming_h(ex, st, args, kw, node):
+        # reached right after the storage arm of an accepted step: one row stored iff the thinning rule says so
+        se, kc = st.load('self.config.save_every'), st.load('self.system.dae.kcount')
+        want = z3.Or(se == 1, z3.And(se != 0, se != 1, kc % se == 0))
+        ex.oblige(st, 'pre@call:streaming_step:row-stored-iff-save_every==1-or-kcount-divisible-by-save_every',
+                  to_b(st.ghost['stored']) == want, {})
+        return None
 
     def do_switch_post(old, new, res, args, kw):
         idx, n = old.z('self._switch_idx'), old.z('self.system.n_switches')
@@ -614,7 +626,8 @@ def run(pid, drop=()):
                   ('resume-state', lambda v: z3.Implies(v.z('self.system.dae.t') >= 0,
                                                         z3.And(event_inv(v), step_size_inv(v),
                                                                v.z('self.system.dae.t') <= v.z('self.config.tf')))),
-                  ('tstep-positive', lambda v: v.z('self.config.tstep') > 0)],
+                  ('tstep-positive', lambda v: v.z('self.config.tstep') > 0),
+                  ('save_every-nonneg', lambda v: v.z('self.config.save_every') >= 0)],
         ghost_init=ghost0,
         calls={
             'self.summary': spec(name='TDS.summary'),
@@ -642,9 +655,9 @@ def run(pid, drop=()):
                                   name='TDS.itm_step'),
             'self._csv_step': spec(returns=TBool(), name='TDS._csv_step'),
             'self.call_stats.append': spec(name='call_stats.append'),
-            'self.system.dae.store': spec(name='DAE.store'),
+            'self.system.dae.store': store_h,
             'self.save_output': spec(name='TDS.save_output'), 'self.system.dae.ts.reset': spec(name='DAETimeSeries.reset'),
-            'self.streaming_step': spec(name='TDS.streaming_step'),
+            'self.streaming_step': streaming_h,
             'self.check_criteria': spec(returns=TBool(), name='TDS.check_criteria'),
             'self.do_switch': do_switch_h,
             'self.calc_h': calc_h_call_spec(),
